@@ -118,6 +118,19 @@ func (o *c08Oracle) after(ch *chain, ci *callInfo) *Violation {
 		if mustJail && !newlyJailed {
 			return violf("C08/not-jailed-at-threshold", "%s: validator %s has missed %d of its last %d blocks (max %d allowed, start height %d) but was not slashed and jailed", where, a, maxMissed+1, W, maxMissed, r.start)
 		}
+		if mustJail {
+			// "slashed and jailed": the downtime fraction of the power Tendermint reported for it, at most its stake;
+			// below the minimum the rest is burned too (no other slash happens in these histories)
+			amt, _ := slashAmount(vote.Validator.Power, ch.posDec(before, "SlashFractionDowntime"), bv.StakedTokens.BigInt())
+			wantStake := new(big.Int).Sub(bv.StakedTokens.BigInt(), amt)
+			if wantStake.Cmp(big.NewInt(ch.posParamInt64(before, "StakeMinimum"))) < 0 {
+				wantStake = new(big.Int)
+			}
+			if av.StakedTokens.BigInt().Cmp(wantStake) != 0 && len(ci.Req.ByzantineValidators) == 0 {
+				return violf("C08/slash-at-jailing", "%s: validator %s was jailed for downtime with reported power %d and fraction %s: stake %s -> %s, expected %s",
+					where, a, vote.Validator.Power, ch.posDec(before, "SlashFractionDowntime"), bv.StakedTokens, av.StakedTokens, wantStake)
+			}
+		}
 		if !mustJail && newlyJailed && !convictedNow[a] {
 			return violf("C08/jailed-early", "%s: validator %s was jailed for downtime although its window holds %d misses (max %d allowed) and height %d vs start %d + window %d", where, a, r.counter, maxMissed, ci.Height, r.start, W)
 		}
@@ -154,7 +167,7 @@ func genC08(t *rapid.T, tier string) interface{} {
 	g.MaxValidators = 100000
 	g.JailSec = 60
 	g.UnstakingSec = 3600
-	g.SlashDT = rapid.SampledFrom([]string{"0", "0.01", "0.000000000000000001"}).Draw(t, "slashdt")
+	g.SlashDT = rapid.SampledFrom([]string{"0", "0.01", "0.01", "0.05", "0.333333333333333333", "0.000000000000000001"}).Draw(t, "slashdt")
 	g.SlashDS = "0.05"
 	for len(g.Validators) < 2 {
 		g.Validators = append(g.Validators, hGenVal{Key: 7 - len(g.Validators), Stake: 5000001})
@@ -163,6 +176,20 @@ func genC08(t *rapid.T, tier string) interface{} {
 		g.Validators = g.Validators[:2] // the state dumps grow with validators x window
 	}
 	for i := range g.Validators {
+		// funded accounts, so that their unjail / stake transactions can pay
+		funded := false
+		for j := range g.Accounts {
+			if g.Accounts[j].Key == g.Validators[i].Key {
+				funded = true
+				if g.Accounts[j].Balance < 50000000 {
+					g.Accounts[j].Balance = 50000000
+				}
+				g.Accounts[j].NoPub = false
+			}
+		}
+		if !funded {
+			g.Accounts = append(g.Accounts, hGenAcc{Key: g.Validators[i].Key, Balance: 50000000})
+		}
 		if g.Validators[i].Stake < 3*g.StakeMinimum {
 			g.Validators[i].Stake = 3*g.StakeMinimum + 1 // survive a few downtime slashes
 		}
@@ -184,7 +211,7 @@ func genC08(t *rapid.T, tier string) interface{} {
 	txgen := genTx(pr)
 	for b := 0; b < nb; b++ {
 		blk := hBlock{DTSec: rapid.SampledFrom([]int64{1, 5, 61}).Draw(t, "dt"), Proposer: rapid.IntRange(0, 3).Draw(t, "proposer")}
-		for vi := 0; vi < 8; vi++ {
+		for vi := 0; vi < len(g.Validators) && vi < len(pats); vi++ {
 			p := pats[vi]
 			miss := false
 			switch p.kind {
@@ -203,12 +230,21 @@ func genC08(t *rapid.T, tier string) interface{} {
 				miss = rapid.IntRange(0, 99).Draw(t, "bit") < 40
 			}
 			if miss {
-				blk.Missed = append(blk.Missed, vi)
+				// addressed by key: each validator follows its own pattern whatever the size of the set
+				blk.MissedKeys = append(blk.MissedKeys, g.Validators[vi].Key)
 			}
 		}
-		if rapid.IntRange(0, 11).Draw(t, "hastx") == 0 {
+		if rapid.IntRange(0, 5).Draw(t, "hastx") == 0 {
 			tx := txgen(t)
 			tx.Mut, tx.Mode, tx.Replay = "", "", 0
+			if rapid.IntRange(0, 3).Draw(t, "txbyval") != 0 {
+				// by one of the validators under observation (unjail after a jailing, re-stake after a forced unstake)
+				tx.From = g.Validators[rapid.IntRange(0, len(g.Validators)-1).Draw(t, "txval")].Key
+				tx.SignWith, tx.KeyInSig = -1, true
+				if tx.Kind == "send" {
+					tx.Kind = "unjail"
+				}
+			}
 			blk.Txs = []hTx{tx}
 		}
 		p.Blocks = append(p.Blocks, blk)
